@@ -27,11 +27,18 @@ for r in recs:
     c = r["case"]
     if c.get("scenario") in ("single", "repro") and c["kind"] in bnd.INTCODED and not r.get("skip"):
         pairs.setdefault((c["opt"], c["kind"]), []).append((r.get("cycles_budget", 0), bool(r.get("exc"))))
-failing = sorted([list(k) for k, v in pairs.items() if all(e for b, e in v if b == max(b_ for b_, _ in v))])
-known_exc = sorted({(r["case"]["opt"], r["exc"]["type"]) for r in recs if r.get("exc") and r["case"]["kind"] in bnd.CONT})
+def _full(v):
+    top = max(b_ for b_, _ in v)
+    return [e for b, e in v if b == top]
+
+
+failing = sorted([list(k) for k, v in pairs.items() if all(_full(v))])
+partial = sorted([list(k) for k, v in pairs.items() if any(_full(v)) and not all(_full(v))])
+known_exc = sorted({(r["case"]["opt"], r["exc"]["type"]) for r in recs if r.get("exc") and r["case"]["kind"] in bnd.CONT
+                    and not str(r["case"].get("scale", "")).startswith("small")})     # (below the documented scale: not C06's domain)
 mono = sorted(c for c in el if c not in nonmono and c not in elitist)
 lens = classify_len(an.src)
 out = {"len_structural": sorted(c for c, v in lens.items() if v[0]), "C12_excluded": excluded, "elitist": elitist, "monotone_in_campaign_not_structural": mono, "non_monotone_observed": sorted(nonmono), "structurally_elitist_but_not_monotone_in_campaign": dropped,
-       "C06_intcoded_failing_pairs": failing, "C06_known_exceptions": [list(x) for x in known_exc]}
+       "C06_intcoded_failing_pairs": failing, "C06_intcoded_partial_pairs": partial, "C06_known_exceptions": [list(x) for x in known_exc]}
 json.dump(out, open(os.path.join(V, "expectations.json"), "w"), indent=1)
 print("C12 excluded", excluded); print("elitist", len(elitist), "dropped (non-monotone)", dropped); print("failing int-coded pairs", len(failing)); print("known exc", known_exc)
